@@ -9,6 +9,7 @@
 //!                every string of <= 3 characters over the boundary alphabet as single value, every pair
 //!                of <= 2-character strings, x truncate lengths {None,1,2,3,4,64}
 //!  * `binary`  : every <= 3-byte string over {00,7F,80,FF}: singles, pairs; BYTE_ARRAY, FLBA(3), Arrow
+//!  * `multiwrite`: every type x short sequences x every composition into <= 3 write calls x page / mini-batch layouts
 //!  * `arrow`   : ArrowWriter flat types x sequences N<=3 + StatisticsConverter soundness
 use crate::c07check::*;
 use crate::c07model::*;
@@ -48,11 +49,15 @@ pub struct C7Cfg {
     pub trunc: u8,
     /// dictionary page size limit: 0 = default, 1 = 1 byte (fallback after the first mini-batch), 2 = 16 bytes (mid-chunk fallback)
     pub dlimit: u8,
+    /// write batch size: 0 = library default (or 1 when page_rows > 0), k = k
+    pub wbs: u8,
+    /// partition of the rows into write calls (ArrowWriter::write / ColumnWriter::write_batch): part lengths, all 0 = one call
+    pub parts: [u8; 3],
 }
 impl C7Cfg {
-    pub const DEFAULT: C7Cfg = C7Cfg { page_rows: 0, stats: 0, bloom: 0, v2: false, dict: true, hdr: false, trunc: 0, dlimit: 0 };
+    pub const DEFAULT: C7Cfg = C7Cfg { page_rows: 0, stats: 0, bloom: 0, v2: false, dict: true, hdr: false, trunc: 0, dlimit: 0, wbs: 0, parts: [0; 3] };
     fn to_json(&self) -> Value {
-        json!({"page_rows": self.page_rows, "stats": self.stats, "bloom": self.bloom, "v2": self.v2, "dict": self.dict, "hdr": self.hdr, "trunc": self.trunc, "dlimit": self.dlimit})
+        json!({"page_rows": self.page_rows, "stats": self.stats, "bloom": self.bloom, "v2": self.v2, "dict": self.dict, "hdr": self.hdr, "trunc": self.trunc, "dlimit": self.dlimit, "wbs": self.wbs, "parts": self.parts})
     }
     fn from_json(v: &Value) -> C7Cfg {
         C7Cfg {
@@ -64,12 +69,17 @@ impl C7Cfg {
             hdr: v["hdr"].as_bool().unwrap_or(false),
             trunc: v["trunc"].as_u64().unwrap_or(0) as u8,
             dlimit: v["dlimit"].as_u64().unwrap_or(0) as u8,
+            wbs: v["wbs"].as_u64().unwrap_or(0) as u8,
+            parts: [v["parts"][0].as_u64().unwrap_or(0) as u8, v["parts"][1].as_u64().unwrap_or(0) as u8, v["parts"][2].as_u64().unwrap_or(0) as u8],
         }
     }
     fn props(&self) -> WriterProperties {
         let mut b = WriterProperties::builder();
         if self.page_rows > 0 {
             b = b.set_write_batch_size(1).set_data_page_row_count_limit(self.page_rows as usize);
+        }
+        if self.wbs > 0 {
+            b = b.set_write_batch_size(self.wbs as usize);
         }
         b = b.set_statistics_enabled([EnabledStatistics::Page, EnabledStatistics::Chunk, EnabledStatistics::None][self.stats as usize]);
         match self.bloom {
@@ -104,6 +114,23 @@ impl C7Cfg {
     }
 }
 
+impl C7Cfg {
+    /// (offset, len) of every write call for `n` rows
+    fn calls(&self, n: usize) -> Vec<(usize, usize)> {
+        if self.parts == [0; 3] {
+            return vec![(0, n)];
+        }
+        let mut out = vec![];
+        let mut off = 0;
+        for p in self.parts.iter().filter(|p| **p > 0) {
+            out.push((off, *p as usize));
+            off += *p as usize;
+        }
+        assert_eq!(off, n, "parts must cover the rows");
+        out
+    }
+}
+
 /// full product over the non-truncation dimensions
 fn product_cfgs() -> Vec<C7Cfg> {
     let mut v = vec![];
@@ -113,7 +140,7 @@ fn product_cfgs() -> Vec<C7Cfg> {
                 for v2 in [false, true] {
                     for dict in [true, false] {
                         for hdr in [false, true] {
-                            v.push(C7Cfg { page_rows, stats, bloom, v2, dict, hdr, trunc: 0, dlimit: 0 });
+                            v.push(C7Cfg { page_rows, stats, bloom, v2, dict, hdr, trunc: 0, dlimit: 0, wbs: 0, parts: [0; 3] });
                         }
                     }
                 }
@@ -154,7 +181,7 @@ fn trunc_cfgs(quick: bool) -> Vec<C7Cfg> {
             for (stats, hdr) in [(0u8, false), (0, true), (1, false)] {
                 for v2 in if quick { vec![false] } else { vec![false, true] } {
                     for dict in [true, false] {
-                        v.push(C7Cfg { page_rows, stats, bloom: 0, v2, dict, hdr, trunc, dlimit: 0 });
+                        v.push(C7Cfg { page_rows, stats, bloom: 0, v2, dict, hdr, trunc, dlimit: 0, wbs: 0, parts: [0; 3] });
                     }
                 }
             }
@@ -269,6 +296,8 @@ fn write_lowlevel(spec: &Spec, rows: &[Option<Raw>], cfg: &C7Cfg) -> Result<Vec<
         let mut w = SerializedFileWriter::new(&mut buf, schema, Arc::new(cfg.props())).map_err(|e| fe("new", &e))?;
         let mut rg = w.next_row_group().map_err(|e| fe("next_row_group", &e))?;
         let mut cw = rg.next_column().map_err(|e| fe("next_column", &e))?.expect("one column");
+        for (off, len) in cfg.calls(rows.len()) {
+        let rows = &rows[off..off + len];
         let def: Vec<i16> = rows.iter().map(|r| r.is_some() as i16).collect();
         let vals: Vec<&Raw> = rows.iter().flatten().collect();
         macro_rules! wr {
@@ -292,6 +321,7 @@ fn write_lowlevel(spec: &Spec, rows: &[Option<Raw>], cfg: &C7Cfg) -> Result<Vec<
             PhysicalType::DOUBLE => wr!(DoubleType, |r: &&Raw| if let Raw::F64(x) = r { f64::from_bits(*x) } else { panic!() }),
             PhysicalType::BYTE_ARRAY => wr!(ByteArrayType, |r: &&Raw| if let Raw::Bytes(x) = r { ByteArray::from(x.clone()) } else { panic!() }),
             PhysicalType::FIXED_LEN_BYTE_ARRAY => wr!(FixedLenByteArrayType, |r: &&Raw| if let Raw::Bytes(x) = r { FixedLenByteArray::from(x.clone()) } else { panic!() }),
+        }
         }
         cw.close().map_err(|e| fe("column close", &e))?;
         rg.close().map_err(|e| fe("row group close", &e))?;
@@ -330,7 +360,9 @@ fn write_arrow(t: &Ty, vals: &[Val], cfg: &C7Cfg) -> Result<Vec<u8>, Fail> {
     let batch = RecordBatch::try_new(schema.clone(), vec![arr]).map_err(|e| ("harness:batch".to_string(), format!("{e}")))?;
     let mut buf = vec![];
     let mut w = ArrowWriter::try_new(&mut buf, schema, Some(cfg.props())).map_err(|e| (format!("c07:write-error:{}:try_new", t.family), format!("{e}")))?;
-    w.write(&batch).map_err(|e| (format!("c07:write-error:{}:write", t.family), format!("{e}")))?;
+    for (off, len) in cfg.calls(vals.len()) {
+        w.write(&batch.slice(off, len)).map_err(|e| (format!("c07:write-error:{}:write", t.family), format!("{e}")))?;
+    }
     w.close().map_err(|e| (format!("c07:write-error:{}:close", t.family), format!("{e}")))?;
     Ok(buf)
 }
@@ -910,7 +942,7 @@ pub fn run(ctx: &Ctx) -> ! {
                     })
                 })
                 .collect();
-            let case = Case { sub: "bloomlong", input: Input::Low { spec: spec.clone(), rows }, cfg: C7Cfg { page_rows, stats: 0, bloom, v2: false, dict, hdr: false, trunc: 0, dlimit } };
+            let case = Case { sub: "bloomlong", input: Input::Low { spec: spec.clone(), rows }, cfg: C7Cfg { page_rows, stats: 0, bloom, v2: false, dict, hdr: false, trunc: 0, dlimit, wbs: 0, parts: [0; 3] } };
             st.add("bloomlong", 1, 1);
             if idx + 1 == items.len() as u64 {
                 st.sample("bloomlong", || json!({"type": spec.label, "len": lens[li], "bloom": bloom, "pattern": pat, "dict": dict}));
@@ -919,13 +951,89 @@ pub fn run(ctx: &Ctx) -> ! {
         }));
     }
 
+    // ---------------- multiwrite: the same page / chunk fed by several write calls and multi-value mini-batches
+    if want("multiwrite") {
+        let sp = specs();
+        let atys = arrow_types();
+        // (page_rows, write batch size): one page + one mini-batch per call; mini-batches of 2; pages of >= 2 rows fed
+        // by mini-batches of 2; pages of 3 rows fed by single values; one row per page
+        let layouts: [(u8, u8); 5] = [(0, 0), (0, 2), (2, 2), (3, 1), (1, 1)];
+        let stat_modes: [(u8, bool); 2] = [(0, true), (1, false)];
+        // (sequence length n, composition of n into <= 3 write calls)
+        let comps = |n: usize| -> Vec<[u8; 3]> {
+            let mut v = vec![];
+            if n == 0 {
+                return vec![[0; 3]];
+            }
+            v.push([n as u8, 0, 0]);
+            for a in 1..n {
+                v.push([a as u8, (n - a) as u8, 0]);
+                for b in 1..(n - a) {
+                    v.push([a as u8, b as u8, (n - a - b) as u8]);
+                }
+            }
+            v
+        };
+        // letters: first / middle / last letter of the type's alphabet (+ null); all sequences of length <= 3 over
+        // the 4 letters and all sequences of length 4 over the 3 non-null letters: a later call then lowers the min
+        // only, raises the max only, does both, or neither, with and without nulls
+        let pick = |len: usize| -> [usize; 3] { [0, len / 2, len - 1] };
+        let mut shapes: Vec<(Vec<u8>, [u8; 3])> = vec![]; // (letter indices, 3 = null), parts
+        for n in 0..=3usize {
+            for code in 0..4usize.pow(n as u32) {
+                let seq: Vec<u8> = (0..n).map(|k| ((code / 4usize.pow(k as u32)) % 4) as u8).collect();
+                for c in comps(n) {
+                    shapes.push((seq.clone(), c));
+                }
+            }
+        }
+        for code in 0..81usize {
+            let seq: Vec<u8> = (0..4).map(|k| ((code / 3usize.pow(k as u32)) % 3) as u8).collect();
+            for c in comps(4) {
+                shapes.push((seq.clone(), c));
+            }
+        }
+        let ntypes = sp.len() + atys.len();
+        let per = shapes.len() * layouts.len() * stat_modes.len();
+        st.extra.insert("multiwrite_bounds".into(), json!({"low_level_types": sp.len(), "arrow_types": atys.len(), "shapes(sequence x composition into <=3 write calls)": shapes.len(),
+            "layouts(page_rows, write_batch_size)": layouts, "statistics": ["Page + page-header statistics", "Chunk"]}));
+        let total = (ntypes * per) as u64;
+        st.merge(par_for(ctx, "multiwrite", total, 64, |idx, st| {
+            let ti = idx as usize / per;
+            let mut r = idx as usize % per;
+            let (stats, hdr) = stat_modes[r % stat_modes.len()];
+            r /= stat_modes.len();
+            let (page_rows, wbs) = layouts[r % layouts.len()];
+            let (seq, parts) = &shapes[r / layouts.len()];
+            let cfg = C7Cfg { page_rows, wbs, stats, hdr, parts: if parts[1] == 0 { [0; 3] } else { *parts }, ..C7Cfg::DEFAULT };
+            let case = if ti < sp.len() {
+                let spec = &sp[ti];
+                let ix = pick(spec.alpha.len());
+                Case { sub: "multiwrite", input: Input::Low { spec: spec.clone(), rows: seq.iter().map(|l| if *l == 3 { None } else { Some(spec.alpha[ix[*l as usize]].clone()) }).collect() }, cfg }
+            } else {
+                let t = &atys[ti - sp.len()];
+                let alpha: Vec<Val> = if is_leaf(&t.dt) { leaf_alpha(&t.dt) } else { small(&t.dt, false, true) };
+                if alpha.is_empty() || (!t.nullable && seq.contains(&3)) {
+                    return;
+                }
+                let ix = pick(alpha.len());
+                Case { sub: "multiwrite", input: Input::Arrow { ty: t.clone(), vals: seq.iter().map(|l| if *l == 3 { Val::Null } else { alpha[ix[*l as usize]].clone() }).collect() }, cfg }
+            };
+            st.add("multiwrite", 1, (!seq.is_empty()) as u64);
+            if idx == total - 1 {
+                st.sample("multiwrite", || case.to_json());
+            }
+            eval(&case, (5 << 40) + idx, st);
+        }));
+    }
+
     // ---------------- arrow flat types + converter
     if want("arrow") {
         let tys = arrow_types();
         let mut cfgs = dev1_cfgs();
-        cfgs.push(C7Cfg { page_rows: 1, stats: 0, bloom: 1, v2: true, dict: false, hdr: true, trunc: 0, dlimit: 0 });
+        cfgs.push(C7Cfg { page_rows: 1, stats: 0, bloom: 1, v2: true, dict: false, hdr: true, trunc: 0, dlimit: 0, wbs: 0, parts: [0; 3] });
         cfgs.push(C7Cfg { page_rows: 1, v2: true, dlimit: 1, ..C7Cfg::DEFAULT });
-        cfgs.push(C7Cfg { page_rows: 2, stats: 0, bloom: 0, v2: true, dict: true, hdr: false, trunc: 1, dlimit: 0 });
+        cfgs.push(C7Cfg { page_rows: 2, stats: 0, bloom: 0, v2: true, dict: true, hdr: false, trunc: 1, dlimit: 0, wbs: 0, parts: [0; 3] });
         let nmax = if quick { 3 } else { 4 };
         let mut starts = vec![];
         let mut total = 0u64;
